@@ -1138,13 +1138,30 @@ func (c *FCtx) allocTerm(a *ssa.Alloc) *Term {
 		n := int(at.Len())
 		elems := make([]*Term, n)
 		for _, r := range *a.Referrers() {
-			if ia, ok := r.(*ssa.IndexAddr); ok {
-				if k, ok := ia.Index.(*ssa.Const); ok {
-					for _, r2 := range *ia.Referrers() {
-						if s, ok := r2.(*ssa.Store); ok && s.Addr == ia {
-							i := int(k.Int64())
-							if i < n {
-								elems[i] = c.Term(s.Val)
+			switch ia := r.(type) {
+			case *ssa.IndexAddr:
+				k, isConst := ia.Index.(*ssa.Const)
+				for _, r2 := range *ia.Referrers() {
+					if s, ok := r2.(*ssa.Store); ok && s.Addr == ia {
+						if !isConst {
+							return c.unk(a) // written at a computed index: not a literal
+						}
+						i := int(k.Int64())
+						if i < n {
+							if elems[i] != nil {
+								return c.unk(a) // an element is overwritten after the literal was built
+							}
+							elems[i] = c.Term(s.Val)
+						}
+					}
+				}
+			case *ssa.Slice:
+				// the literal's slice must not be written through
+				for _, r2 := range *ia.Referrers() {
+					if ia2, ok := r2.(*ssa.IndexAddr); ok {
+						for _, r3 := range *ia2.Referrers() {
+							if s, ok := r3.(*ssa.Store); ok && s.Addr == ia2 {
+								return c.unk(a)
 							}
 						}
 					}
